@@ -9,25 +9,25 @@ use std::net::{IpAddr, Ipv4Addr, Ipv6Addr, SocketAddr};
 
 // the stub types, verbatim shape and derives
 #[derive(Clone, Copy, PartialEq, Eq, PartialOrd, Ord, Debug, Hash)]
-struct M4 {
+pub(crate) struct M4 {
     bits: u32,
 }
 #[derive(Clone, Copy, PartialEq, Eq, PartialOrd, Ord, Debug, Hash)]
-struct M6 {
+pub(crate) struct M6 {
     bits: u128,
 }
 #[derive(Clone, Copy, PartialEq, Eq, PartialOrd, Ord, Debug, Hash)]
-enum MIp {
+pub(crate) enum MIp {
     V4(M4),
     V6(M6),
 }
-fn abs4(a: Ipv4Addr) -> M4 {
+pub(crate) fn abs4(a: Ipv4Addr) -> M4 {
     M4 { bits: u32::from(a) }
 }
-fn abs6(a: Ipv6Addr) -> M6 {
+pub(crate) fn abs6(a: Ipv6Addr) -> M6 {
     M6 { bits: u128::from(a) }
 }
-fn abs(a: IpAddr) -> MIp {
+pub(crate) fn abs(a: IpAddr) -> MIp {
     match a {
         IpAddr::V4(x) => MIp::V4(abs4(x)),
         IpAddr::V6(x) => MIp::V6(abs6(x)),
@@ -47,7 +47,7 @@ fn int_cmp(a: (u8, u128), b: (u8, u128)) -> Option<Ordering> {
     Some(a.cmp(&b))
 }
 
-fn gen4(rng: &mut Rng) -> Ipv4Addr {
+pub(crate) fn gen4(rng: &mut Rng) -> Ipv4Addr {
     let r = rng.u32();
     let bits = match rng.below(14) {
         0 => 0,
@@ -65,7 +65,7 @@ fn gen4(rng: &mut Rng) -> Ipv4Addr {
     };
     Ipv4Addr::from(bits)
 }
-fn gen6(rng: &mut Rng) -> Ipv6Addr {
+pub(crate) fn gen6(rng: &mut Rng) -> Ipv6Addr {
     let r = rng.u128();
     let bits = match rng.below(12) {
         0 => 0,
@@ -82,7 +82,7 @@ fn gen6(rng: &mut Rng) -> Ipv6Addr {
     };
     Ipv6Addr::from(bits)
 }
-fn gen(rng: &mut Rng) -> IpAddr {
+pub(crate) fn gen(rng: &mut Rng) -> IpAddr {
     if rng.bool() { IpAddr::V4(gen4(rng)) } else { IpAddr::V6(gen6(rng)) }
 }
 /// a pair that is often equal / adjacent
